@@ -19,7 +19,7 @@ from . import h5util as H
 
 ID = "C05"
 MOD = "harness.props.c05"
-LEAN = dict(modules=[], theorems=[], drivers=[])
+LEAN = dict(modules=[], theorems=[], drivers=["drv_mrg"])
 
 
 def _hashes(d):
@@ -55,8 +55,9 @@ def impl(case):
                 rec.commit_patch()
                 rec.create_patch()
                 ncont += 1
+                out.append("ok")
             else:
-                outcomes.append(H.apply_op(rec, op))
+                out.append(H.oc(H.apply_op(rec, op)))
         # refused while there are uncommitted changes
         try:
             rec.merge_files(Path(tmp) / "early")
@@ -100,7 +101,7 @@ def impl(case):
         except Exception as e:  # noqa: BLE001
             oracle.append(dict(kind="merge-of-committed-record-fails", error=type(e).__name__))
             src.close()
-            return dict(out=None, oracle=oracle, tags=tags)
+            return dict(out=out + [H.show_dump(d0), "err"], oracle=oracle, tags=tags, partial=True)
         d1 = H.dump(src)
         m1 = _meta(src)
         h1 = _hashes(src_dir)
@@ -118,7 +119,7 @@ def impl(case):
             merged = cls(Path(mdir) / "rec", "r")
         except Exception as e:  # noqa: BLE001
             oracle.append(dict(kind="merged-record-does-not-open", error=type(e).__name__))
-            return dict(out=None, oracle=oracle, tags=tags)
+            return dict(out=out + [H.show_dump(d0), "ok"], oracle=oracle, tags=tags, partial=True)
         dm = H.dump(merged)
         mm = _meta(merged)
         if len(mm) != 1:
@@ -130,18 +131,21 @@ def impl(case):
         if mm and (mm[0][0] != m0[-1][0] or mm[0][1] != m0[-1][1] or mm[0][2] != m0[-1][2] or mm[0][3] != m0[0][3] or mm[0][4] is None):
             oracle.append(dict(kind="merged-userblock-wrong", merged=mm[0], source_last=m0[-1], source_first=m0[0]))
         merged.close()
+        out += [H.show_dump(d0), "ok", "n %d" % len(mm), H.show_dump(dm)]
 
         # follow-up patches created on the source apply to the merged container
         follow = case.get("follow") or []
         if follow:
             s2 = cls(Path(src_dir) / "rec", "r+")
             nfiles_before = len(m0)  # committed containers before the follow-up (r+ has already added one)
+            fout = ["ok"]
             for op in follow:
                 if op[0] == "patch":
                     s2.commit_patch()
                     s2.create_patch()
+                    fout.append("ok")
                 else:
-                    H.apply_op(s2, op)
+                    fout.append(H.oc(H.apply_op(s2, op)))
             s2.commit_patch()
             dfull = H.dump(s2)
             newfiles = [str(p) for p in s2.ih5_files[nfiles_before:]]
@@ -155,6 +159,7 @@ def impl(case):
                 m2 = cls(Path(mdir) / "rec", "r")
                 dm2 = H.dump(m2)
                 m2.close()
+                out += fout + [H.show_dump(dm2)]
                 if dm2 != dfull:
                     diff = sorted(p for p in set(dm2) | set(dfull) if dm2.get(p) != dfull.get(p))[:5]
                     oracle.append(dict(kind="followup-patches-differ-on-merged", paths=diff))
@@ -178,9 +183,25 @@ def impl(case):
                 pass
             stub.close()
             tags.append("stub-refusal")
-        return dict(out=None, oracle=oracle, tags=tags, view=d0, outcomes=outcomes)
+        return dict(out=out, oracle=oracle, tags=tags)
     finally:
         shutil.rmtree(tmp, ignore_errors=True)
+
+
+def lines(case):
+    L = [H.op_line(op) for op in case["ops"]]
+    L += ["dump", "merge", "ncont", "dump"]
+    if case.get("follow"):
+        L += ["patch"] + [H.op_line(op) for op in case["follow"]] + ["dump"]
+    return L
+
+
+def compare(case, ir, mo):
+    out = ir.get("out") or []
+    if ir.get("partial") or len(out) != len(mo):
+        # the real run stopped early (an oracle hit explains why): compare the common prefix
+        mo = mo[: len(out)]
+    return core.default_compare(case, dict(out=out), mo)
 
 
 def gen_cases(ctx):
@@ -200,17 +221,7 @@ def run(ctx):
                 "IH5Record / IH5MFRecord; merge; follow-up patches; non-trivial = >=3 containers, contains delete, has follow-up patches, stub refusal")
     ctx.assumptions += ["h5py implements the flat tree semantics", "sha256 of files detects on-disk changes"]
     cases = core.load_corpus(ID) + gen_cases(ctx)
-    res = pool.run(MOD, "impl", cases, timeout=120)
-    for c, r in zip(cases, res):
-        if "timeout" in r:
-            ctx.oracle_hit(c, dict(kind="does-not-terminate"))
-            ctx.note_case(c, ["timeout"])
-        elif "crash" in r:
-            raise lean.InfraError("c05 impl crashed: %s\n%s" % (r["crash"], r.get("tb", "")))
-        else:
-            for d in r["ok"]["oracle"]:
-                ctx.oracle_hit(c, d)
-            ctx.note_case(c, r["ok"]["tags"], len(c["ops"]))
+    ctx.correspond("merge-model", MOD, cases, lines, "drv_mrg", compare=compare, timeout=120)
 
 
 def signature(case, detail):
